@@ -30,8 +30,8 @@ Definition formulas_agree : bool :=
   negb (N.eqb Gen_Alloc.a_ZSTDMT_NBWORKERS_MAX 0) &&
   negb (N.eqb Gen_Alloc.a_DDICT_HASHSET_TABLE_BASE_SIZE 0) && N.leb 2 Gen_Alloc.a_DDICT_HASHSET_RESIZE_FACTOR.
 
-(* round 3: the scenario interpreter of the borrowed-DDict tie (AllocBorrow, repaired ZSTD_DCtx_refDDict, 40 DDict handles) with
+(* round 3: the scenario interpreter of the borrowed-DDict tie (AllocBorrow, repaired ZSTD_DCtx_refDDict and frame start, 40 DDict handles) with
    the current sizes; the first expansion of the set doubles the base table *)
 Definition run_bops (ops : list (N * list N)) (faults : list nat) : list event * list nat * list err :=
-  run_bops_gen true 40 Gen_Alloc.a_sizeof_ZSTD_DCtx Gen_Alloc.a_sizeof_DDictHashSet
+  run_bops_gen true true 40 Gen_Alloc.a_sizeof_ZSTD_DCtx Gen_Alloc.a_sizeof_DDictHashSet
     (Gen_Alloc.a_DDICT_HASHSET_TABLE_BASE_SIZE * Gen_Alloc.a_sizeof_ptr) Gen_Alloc.a_sizeof_ZSTD_DDict ops faults.
